@@ -316,11 +316,6 @@ class Ref:
             for con, _w in c["checks"]:
                 if con["kind"] in ("sequential", "latin"):
                     self.amb("order-constraint-in-member-block")
-                tf = con.get("factor")
-                if tf in self.derived and self.is_complex(tf) and self.start[tf] > p and len(windows) > 1 and con["kind"] != "exclude":
-                    # in later repetitions the factor has a level at the repetition's first trials (the previous repetition
-                    # serves as its preamble) although the block on its own starts it later: which trials the constraint sees is open
-                    self.amb("member-constraint-on-late-starting-factor")
                 if windows[-1][1] - windows[-1][0] < L and (con["kind"] in self.COUNT_KINDS or con["kind"] == "pin"):
                     self.amb("truncated-window")
                 C["checks"].append((con, list(windows)))
